@@ -26,16 +26,16 @@ import (
 )
 
 // ---- typed access to argument tuples
-func c12s(a []any, i int) string      { return a[i].(string) }
-func c12i(a []any, i int) int         { return a[i].(int) }
-func c12i64(a []any, i int) int64     { return a[i].(int64) }
-func c12f(a []any, i int) float64     { return a[i].(float64) }
-func c12u(a []any, i int) uint64      { return a[i].(uint64) }
-func c12ss(a []any, i int) []string   { return a[i].([]string) }
-func c12as(a []any, i int) []any      { return a[i].([]any) }
-func c12R(vs ...any) []any            { return vs }
-func c12itoa(v int64) string          { return strconv.FormatInt(v, 10) }
-func c12secs(n int) time.Duration     { return time.Duration(n) * time.Second }
+func c12s(a []any, i int) string    { return a[i].(string) }
+func c12i(a []any, i int) int       { return a[i].(int) }
+func c12i64(a []any, i int) int64   { return a[i].(int64) }
+func c12f(a []any, i int) float64   { return a[i].(float64) }
+func c12u(a []any, i int) uint64    { return a[i].(uint64) }
+func c12ss(a []any, i int) []string { return a[i].([]string) }
+func c12as(a []any, i int) []any    { return a[i].([]any) }
+func c12R(vs ...any) []any          { return append([]any{}, vs...) }
+func c12itoa(v int64) string        { return strconv.FormatInt(v, 10) }
+func c12secs(n int) time.Duration   { return time.Duration(n) * time.Second }
 
 // documented conversions -----------------------------------------------------
 
@@ -224,22 +224,34 @@ func c12Table() []*c12Entry {
 		}})
 
 	// ------------------------------------------------------------------ generic
-	add(&c12Entry{name: "Del", kv: "Del", weight: 3, doc: "Del(keys...) -> int (number removed); kv: every named key removed, summed count",
-		gen: func(g *c12Gen) []any {
-			n := 1 + g.r.Intn(3)
-			if g.r.Intn(12) == 0 {
-				n = 0
-			}
-			ks := make([]string, n)
-			for i := range ks {
-				ks[i] = g.anyKey()
-			}
-			return c12R(ks)
-		},
+	delGen := func(g *c12Gen) []any {
+		n := 1 + g.r.Intn(3)
+		if !g.kv && g.r.Intn(12) == 0 {
+			n = 0 // DEL without keys is an argument error on one server; for kv.Store it is outside the statement
+		}
+		ks := make([]string, n)
+		for i := range ks {
+			ks[i] = g.anyKey()
+		}
+		return c12R(ks)
+	}
+	add(&c12Entry{name: "Del", weight: 3, doc: "Del(keys...) -> int (number removed)",
+		gen: delGen,
 		ref: func(x *c12X, a []any) ([]any, error) {
-			ks := c12ss(a, 0)
-			v, err := x.cli.Del(x.ctx, ks...).Result()
+			v, err := x.cli.Del(x.ctx, c12ss(a, 0)...).Result()
 			return c12R(int(v)), err
+		}})
+	add(&c12Entry{kv: "Del", weight: 3, doc: "Del(keys...) over the shards: every named key removed (state comparison), count = number removed; errors are aggregated per key, so only error/no error is compared",
+		gen: delGen,
+		custom: func(x *c12X, a []any, got []any, gotErr error) (bool, string) {
+			v, werr := x.cli.Del(x.ctx, c12ss(a, 0)...).Result()
+			if (gotErr == nil) != (werr == nil) {
+				return false, fmt.Sprintf("wrapper returned %s %s, go-redis Del gives %d %s", c12CanonAll(got), c12ErrClass(gotErr), v, c12ErrClass(werr))
+			}
+			if !x.reissued && c12Canon(got[0]) != c12Canon(v) {
+				return false, fmt.Sprintf("wrapper returned %s, go-redis Del removed %d keys", c12CanonAll(got), v)
+			}
+			return true, ""
 		}})
 	add(&c12Entry{name: "Exists", kv: "Exists", doc: "Exists(key)==1 -> bool",
 		gen: func(g *c12Gen) []any { return c12R(g.anyKey()) },
@@ -589,6 +601,14 @@ func c12Table() []*c12Entry {
 		}})
 	add(&c12Entry{name: "BLPopWithTimeout", blocking: true, weight: 2, doc: "node.BLPop(timeout,key) -> second element | redis.Nil on timeout",
 		gen: func(g *c12Gen) []any {
+			if !g.kv && g.blockEmpty != nil && *g.blockEmpty > 0 {
+				for _, k := range g.keys { // times out on both sides: redis.Nil after 1 s
+					if !g.mrB.Exists(k) {
+						*g.blockEmpty--
+						return c12R(time.Second, k)
+					}
+				}
+			}
 			a := blpopGen(g)
 			if a == nil {
 				return nil
@@ -635,7 +655,13 @@ func c12Table() []*c12Entry {
 			return c12R(v), err
 		}})
 	add(&c12Entry{name: "SPop", kv: "SPop", weight: 2, doc: "SPop(key) -> some member, removed | redis.Nil (membership/cardinality compared; the same member is then removed on side B)",
-		gen: func(g *c12Gen) []any { return c12R(g.key("set")) },
+		gen: func(g *c12Gen) []any {
+			k := g.key("set")
+			if g.emptySet(k) {
+				return nil
+			}
+			return c12R(k)
+		},
 		custom: func(x *c12X, a []any, got []any, gotErr error) (bool, string) {
 			k := c12s(a, 0)
 			before, berr := x.cli.SMembers(x.ctx, k).Result()
@@ -669,7 +695,13 @@ func c12Table() []*c12Entry {
 			return true, ""
 		}})
 	add(&c12Entry{name: "SRandMember", kv: "SRandMember", doc: "SRandMemberN(key,count) -> []string (length and membership compared; distinct when count>0)",
-		gen: func(g *c12Gen) []any { return c12R(g.key("set"), g.r.Intn(9)-3) },
+		gen: func(g *c12Gen) []any {
+			k := g.key("set")
+			if g.emptySet(k) {
+				return nil
+			}
+			return c12R(k, g.r.Intn(9)-3)
+		},
 		custom: func(x *c12X, a []any, got []any, gotErr error) (bool, string) {
 			k, n := c12s(a, 0), c12i(a, 1)
 			want, werr := x.cli.SRandMemberN(x.ctx, k, int64(n)).Result()
@@ -924,7 +956,7 @@ func c12Table() []*c12Entry {
 
 	// ------------------------------------------------------------------ scripts
 	evalArgs := func(g *c12Gen) (string, []any) {
-		return c12Scripts[g.r.Intn(len(c12Scripts))], []any{[]any{g.val()}, []any{int(g.small())}, []any{g.val(), "x"}}[g.r.Intn(3)]
+		return c12Scripts[g.r.Intn(len(c12Scripts))], [][]any{{g.val()}, {int(g.small())}, {g.val(), "x"}}[g.r.Intn(3)]
 	}
 	add(&c12Entry{name: "Eval", weight: 3, doc: "Eval(script,keys,args...) -> interface{} | redis.Nil",
 		gen: func(g *c12Gen) []any {
@@ -1042,7 +1074,9 @@ func c12Table() []*c12Entry {
 			return c12R(v), err
 		}})
 	add(&c12Entry{name: "GeoPos", weight: 2, doc: "GeoPos(key,members...) -> []*GeoPos (nil for unknown members)",
-		gen: func(g *c12Gen) []any { return c12R(g.key("zset"), []string{geoNames[g.r.Intn(4)], geoNames[g.r.Intn(4)]}) },
+		gen: func(g *c12Gen) []any {
+			return c12R(g.key("zset"), []string{geoNames[g.r.Intn(4)], geoNames[g.r.Intn(4)]})
+		},
 		ref: func(x *c12X, a []any) ([]any, error) {
 			v, err := x.cli.GeoPos(x.ctx, c12s(a, 0), c12ss(a, 1)...).Result()
 			return c12R(v), err
